@@ -3,8 +3,10 @@
 PROVED for every simple graph, both formula classes, for an arbitrary assignment a: a satisfies the formula iff for EVERY vertex v
 exactly one vertex of its closed neighbourhood N[v] is chosen - an exact cover of the vertices by closed neighbourhoods (a perfect
 code); one variable per vertex.
-ASSUMED: unique_neighborhoods(G) lists closed neighbourhoods of vertices only and misses none (its sort / de-duplication code is
-not interpreted: bounded tier), the block call contract x(v) (C11), the interface meaning of cardinality_eq (C04).
+unique_neighborhoods(G) is PROVED to list closed neighbourhoods of vertices only and to miss none (ghost witness functions; `sort()` is
+modelled as SOME permutation and `sorted(X)` as a function of X - that the result is duplicate-free, which needs the lexicographic
+order, is left to the bounded tier; it does not affect satisfiability).
+ASSUMED: the neighbour view of the graph (C16), the block call contract x(v) (C11), the interface meaning of cardinality_eq (C04).
 """
 D_ = 'cnfgen/families/dominatingset.py'
 F_ = 'cnfgen/formula/cnf.py'
@@ -16,20 +18,46 @@ CLASSMODELS = {
     'GraphD': {'file': G_, 'real': 'Graph', 'fields': {'gid': 'int', 'n': 'int', 'name': 'opaquestr'}, 'invariant': ['self.n >= 0']},
 }
 XB = 'created("Block1", 0)'
-ONE = 'count(a, ishift(cnb(G.gid, {v}), {x}.off)) == 1'
+CNB = 'isorted(iapp(isnoc(inil, {v}), nbrs(G.gid, {v})))'       # the closed neighbourhood of v as the code builds it: sorted([v] + neighbours)
+ONE = 'count(a, ishift(' + CNB + ', {x}.off)) == 1'
 
 CONTRACTS = {
     (G_, 'GraphD.number_of_vertices'): {'assumed': 'vertex count view', 'params': {}, 'returns_expr': 'self.n'},
+    (G_, 'GraphD.neighbors'): {'assumed': 'neighbour view of the graph (C16): refused iff u is not a vertex; the neighbours are vertices of the graph',
+                               'params': {'u': 'int'}, 'raises': {'ValueError': 'not (1 <= u and u <= self.n)'}, 'returns': 'iseq',
+                               'ensures': ['result == nbrs(self.gid, u)', 'ilen(result) == 0 or (minof(result) >= 1 and maxof(result) <= self.n)']},
     (D_, 'unique_neighborhoods'): {
-        'assumed': 'the duplicate-free list of closed neighbourhoods: every listed item is the closed neighbourhood of a vertex, every vertex\'s is listed '
-                   '(sort and de-duplication not interpreted; bounded tier)',
-        'params': {'G': 'obj:GraphD'}, 'returns': 'cseq',
-        'ensures': ['forall(lambda v: implies(1 <= v and v <= G.n, 0 <= nbj(G.gid, v) and nbj(G.gid, v) < clen(result) and cget(result, nbj(G.gid, v)) == cnb(G.gid, v)), '
-                    'lambda v: cnb(G.gid, v))',
-                    'forall(lambda j: implies(0 <= j and j < clen(result), 1 <= nbv(G.gid, j) and nbv(G.gid, j) <= G.n and cget(result, j) == cnb(G.gid, nbv(G.gid, j))), '
-                    'lambda j: cget(result, j))',
-                    'forall(lambda v: implies(1 <= v and v <= G.n, ilen(cnb(G.gid, v)) >= 1 and minof(cnb(G.gid, v)) >= 1 and maxof(cnb(G.gid, v)) <= G.n), '
-                    'lambda v: cnb(G.gid, v))']},
+        'property': ['C02'],
+        'params': {'G': 'obj:GraphD'},
+        'locals': {'neighborhoods': 'mclist', 'unique': 'mclist'},
+        'raises': {},
+        'returns': 'cseq',
+        # ghost witnesses (all quantifiers universal): R[i] = a position of unique[i] in the sorted list P, W[k] = a position of P[k] in unique
+        'ghost_code': [
+            ('unique = [neighborhoods[0]]', 'R = lam1(lambda i: 0)\nW = lam1(lambda k: 0)'),
+            ('if n != unique[-1]:\n    unique.append(n)',
+             'R = lam1(lambda i: ite(i == clen(unique) - 1, _it, R[i]))\nW = lam1(lambda k: ite(k == _it, clen(unique) - 1, W[k]))'),
+        ],
+        'loops': {
+            0: {'inv': ['clen(neighborhoods) == _it', 'n == G.n', 'n >= 1',
+                        'forall(lambda j: implies(0 <= j and j < _it, cget(neighborhoods, j) == {}), lambda j: cget(neighborhoods, j))'.format(CNB.format(v='(j + 1)')),
+                        'forall(lambda j: implies(0 <= j and j < _it, ilen(cget(neighborhoods, j)) >= 1 and minof(cget(neighborhoods, j)) >= 1 and maxof(cget(neighborhoods, j)) <= G.n), lambda j: cget(neighborhoods, j))',
+                        # the same fact, triggered by the vertex
+                        'forall(lambda v: implies(1 <= v and v <= _it, cget(neighborhoods, v - 1) == {}), lambda v: nbrs(G.gid, v))'.format(CNB.format(v='v'))]},
+            1: {'ghost_at_entry': {'P': 'neighborhoods'},
+                'inv': ['clen(unique) >= 1',
+                        'forall(lambda k: implies(0 <= k and k < clen(P), ilen(cget(P, k)) >= 1 and minof(cget(P, k)) >= 1 and maxof(cget(P, k)) <= G.n), lambda k: cget(P, k))',
+                        'forall(lambda i: implies(0 <= i and i < clen(unique), 0 <= R[i] and R[i] < clen(P) and cget(unique, i) == cget(P, R[i])), lambda i: cget(unique, i))',
+                        'forall(lambda k: implies(0 <= k and k < _it, 0 <= W[k] and W[k] < clen(unique) and cget(unique, W[k]) == cget(P, k)), lambda k: cget(P, k))']},
+        },
+        'ensures': [
+            'implies(G.n == 0, clen(result) == 0)',
+            # every listed item is a non-empty list of vertices
+            'forall(lambda j: implies(0 <= j and j < clen(result), ilen(cget(result, j)) >= 1 and minof(cget(result, j)) >= 1 and maxof(cget(result, j)) <= G.n), lambda j: cget(result, j))',
+            'forall(lambda v: implies(1 <= v and v <= G.n, exists(lambda j: 0 <= j and j < clen(result) and cget(result, j) == {})))'.format(CNB.format(v='v')),
+            'forall(lambda j: implies(0 <= j and j < clen(result), exists(lambda v: 1 <= v and v <= G.n and cget(result, j) == {})))'.format(CNB.format(v='v')),
+        ],
+    },
     (F_, 'FormulaD.__init__'): {'assumed': 'formula_class(description=...) builds an empty formula of that class', 'params': {'description': 'any'},
                                 'modifies': ['self.store', 'self._numvar'], 'ensures': ['self.store == cnil', 'self._numvar == 0']},
     (F_, 'FormulaD.new_block'): {
